@@ -56,3 +56,19 @@ claim("C10", "exploration",
       "The collection history generator drives a directory store and, in lockstep with identical choices, a memory twin: OCI layout validation and index.json-tags == tags/list == model after every operation, snapshots of both stores compared after every operation, collection + Close + reopen equivalence at random points, reopening as memory-over-directory at the end, and nested repositories a, a/b, a/b/c created and emptied in every order with collections between upload and manifest.",
       "Before a restart comparison an explicit collection is run, so the collection inside Close is a second pass; differences that are exactly K1/K5/K6 are recognised by signature and end the lockstep for that history.",
       "layout-invariant monitor + restart / store differential", "DESIGN.md section 5 C10")
+claim("C11", "exploration",
+      "Hundreds (quick) to tens of thousands (thorough) of short concurrent histories (4-8 clients x 6-10 operations on shared tags, subjects and manifests, background collection loop) recorded at the client boundary and checked offline with porcupine against nondeterministic per-object sequential models (tag register, referrers set, manifest presence), plus quiescent checks; run with the jittering sync shim and again under the race detector build.",
+      "Linearizability is checked per object (P-compositionality), not across objects; an acknowledged delete of an item that a concurrent delete has just removed is accepted (idempotent effect); operations answered 5xx stay open and may or may not have taken effect.",
+      "history recording + porcupine linearizability checker (per-object models)", "DESIGN.md section 5 C11")
+claim("C12", "exploration",
+      "Stress batches (6-12 clients, chunked uploads with pauses, expiry of sessions and repositories at 20-60 ms, eviction at 2-4 sessions, collection every 5-10 ms, Close during traffic) on a build whose mutexes and wait groups are instrumented: a deadlock is decided from a cycle in the mutex wait-for graph seen twice, or from a stable all-blocked state over several goroutine dumps - never from a deadline; plus trials in which a request waiting for a collection must return on context cancel, and Close must return.",
+      "Liveness is restated as 'no reachable deadlock state + bounded progress'; slow runs without a cycle or stable stall are inconclusive; WaitGroups and channels contribute no wait-for edges (covered by the stable-stall rule).",
+      "wait-for-graph monitor in a sync shim (build overlay) + stable-stall detection over goroutine dumps, seeded jitter", "DESIGN.md section 5 C12, Appendix B")
+claim("C13", "exploration",
+      "The Go race detector over an everything-at-once workload (all handlers on shared repositories, collection ticker, session / repository expiry, eviction, page cache with short expiry, rate limiter with many addresses) on the unmodified sources and on the jittering sync-shim build; reports are de-duplicated by the pair of innermost olareg functions; the harness measures which handler pairs overlapped.",
+      "The detector only sees races in executions that occur; harness-only reports are ignored; Close is called after requests have quiesced.",
+      "Go race detector over a stress workload (report log scanned by the driver)", "DESIGN.md section 5 C13")
+claim("C17", "exploration",
+      "Generated legacy layouts (fallback indexes accurate, stale in four ways, mixed-subject, with missing or non-referrer entries, dangling, sha256/sha512 subjects, look-alike tags) opened by the writable directory store and memory-over-directory: referrers per subject must equal what the fallback indexes list grouped by the subject each manifest names, every other tag and all content must still be served, the directory must carry the marker and be a valid layout; the same after a second open and after opening every crash image of the conversion; the first request runs under the stable-stall watch.",
+      "Expected referrers are computed from the manifests on disk that some fallback index lists; crash images use the process-crash model of C09.",
+      "reference oracle over generated layouts + crash-image enumeration of the conversion + stall watch", "DESIGN.md section 5 C17")
